@@ -49,10 +49,19 @@ package main
 //@ macro tableInjective(ai) = forallk(a_, ai.SyscallNumbers, forallk(b_, ai.SyscallNumbers, has(ai.SyscallNumbers, a_) && has(ai.SyscallNumbers, b_) && ai.SyscallNumbers[a_] == ai.SyscallNumbers[b_] ==> a_ == b_))
 //@ func getBinaryArch(binary string) (*arch.Info, string, error)   properties C18
 //@   ensures @one_of_three {C18} result2 == nil ==> result0 != nil && (result0 == arch.I386 || result0 == arch.ARM || result0 == arch.X86_64)
-//@ func hashBinary(binary string) (string, error)
-//@   trusted
-//@ func openOutput(goarch string) (io.WriteCloser, error)
-//@   trusted
+//@ global hin ghost:String
+//@ global rall ghost:String
+// the hash main hands to doObjdump is the SHA-256 of everything the binary's reader delivers, in hexadecimal - or ""
+// when reading failed (hashBinary swallows that error; "" never equals the 64 bytes at the head of a cache file, so
+// nothing is reused then: see CI)
+//@ func hashBinary(binary string) (string, error)   properties C17
+//@   modifies ghost.hin
+//@   ensures @exact {C17} result1 == nil ==> result0 == "" || result0 == hexof(sha256of(ghost.rall))
+// the output: standard output for "-", else the file named by the -out template. Creating it may truncate a file (the
+// cache file itself if the user names it: os.Create's contract covers that, an empty file is never taken for a cache)
+//@ func openOutput(goarch string) (io.WriteCloser, error)   properties C17 C18
+//@   modifies outFile, ghost.disk, ghost.tmp
+//@   ensures @cache_kept_or_emptied ghost.disk == old(ghost.disk) || ghost.disk == ""
 // the generated Go file (-format code) is rendered from exactly the list and architecture main computed
 //@ func writeGoTemplate(w io.Writer, goarch string, syscalls []string) error   properties C18
 //@   ghost let prm = p at before call template.Template.Execute#1
@@ -75,9 +84,13 @@ package main
 //@ macro full(hash) = (hash + "\n" + ghost.dump)
 //@ macro CI(d, hash) = (strlen(d) >= 64 && substr(d, 0, 64) == hash ==> d == full(hash))
 
-//@ func cachedDumpFile(binary string) (string, error)
-//@   trusted
-//@   ensures result1 == nil ==> result0 == ghost.cachePath
+// ghost.cachePath is by definition the path this function computes for the binary (the assumption below introduces the
+// name; it is the only thing not proved here). Verified on the body: no effect on the content of the cache file or of
+// its temporary file (only a directory is created), no panic (the ten characters cut from the 64 of the path hash).
+//@ func cachedDumpFile(binary string) (string, error)   properties C17
+//@   modifies ghost.hin
+//@   ghost assume result1 == nil ==> result0 == ghost.cachePath
+//@   ensures @path {C17} result1 == nil ==> result0 == ghost.cachePath
 
 //@ func writeObjdump(binary, hash, file string) error   properties C17
 //@   modifies ghost.disk, ghost.tmp, ghost.buf, ghost.wfile, ghost.written, ghost.ran
@@ -90,7 +103,7 @@ package main
 //@ func doObjdump(binary, hash string) (string, error)   properties C17
 // the crash invariant at entry is the induction hypothesis over the history of runs (every run re-establishes it: @ci)
 //@   requires @ci_at_entry {C17} CI(ghost.disk, hash)
-//@   modifies ghost.disk, ghost.tmp, ghost.buf, ghost.wfile, ghost.written, ghost.ran
+//@   modifies ghost.disk, ghost.tmp, ghost.buf, ghost.wfile, ghost.written, ghost.ran, ghost.hin
 //@   crash_invariant @ci {C17} CI(ghost.disk, hash)
 //@   ensures @ci {C17} CI(ghost.disk, hash)
 //@   ensures @reuse_only_complete {C17} result1 == nil ==> result0 == ghost.cachePath && ghost.disk == full(hash)
@@ -113,7 +126,7 @@ package main
 //@ func main()   properties C18
 //@   requires ghost.pos == 0 && ghost.nlines >= 0
 //@   requires forallk(h, "String", CI(ghost.disk, h))
-//@   modifies ghost.pos, ghost.disk, ghost.tmp, ghost.buf, ghost.wfile, ghost.written, ghost.ran
+//@   modifies ghost.pos, ghost.disk, ghost.tmp, ghost.buf, ghost.wfile, ghost.written, ghost.ran, ghost.hin, outFile
 //@   ghost assume tableInjective(archInfo) at after assign archInfo#1
 //@   hint @table {C18} forall(j, 0, len(syscalls), has(tbl(), syscalls[j].Num) && tbl()[syscalls[j].Num] == syscalls[j].Name) at before loop 1
 //@   hint @mtable {C18} forallk(n, m, has(m, n) ==> has(tbl(), n) && m[n].Name == tbl()[n] && foundName(syscalls, m[n].Name)) at after loop 1
